@@ -13,6 +13,12 @@ from .base import PersLandscape
 
 __all__ = ["PersLandscapeExact"]
 
+# Verification hook (off unless PERSIM_VERIF=1 at import): callbacks in this list are
+# told when `compute_landscape` takes the repeated-bar shortcut and which depth it copied.
+import os as _os
+
+_VERIF_TRACE = [] if _os.environ.get("PERSIM_VERIF") == "1" else None
+
 
 class PersLandscapeExact(PersLandscape):
     """Persistence Landscape Exact class.
@@ -302,6 +308,9 @@ class PersLandscapeExact(PersLandscape):
                     for _ in range(duplicate):
                         L.append(L[-1])
                         landscape_idx += 1
+                        if _VERIF_TRACE is not None:
+                            for _cb in _VERIF_TRACE:
+                                _cb("dup-shortcut", landscape_idx)
 
                 else:
                     # set (b', d')  to be the first term so that d' > d
